@@ -60,10 +60,28 @@ VecCases == {[kind |-> "imgvec", cls |-> cl, shape |-> sh, channels |-> ch, dtyp
                                               \X {"none", "full", "sparse"} \X {0, 2} :
                                             /\ (cl = "Image" => mk = "none") /\ (cl = "MaskedImage" => mk # "none")
                                             /\ (cl = "BooleanImage" => (mk = "none" /\ ch = 1 /\ dt = "float64"))}}
+\* ---- n-D geometry (C01 in 3-D): rescale / resize / mirror / zoom act per axis: source index = a[k] * x[k] + b[k] -------------
+Geom3Shapes == {<<3, 4, 5>>, <<4, 4, 3>>}
+Geom3Ops == {[op |-> "rescale", s |-> s, mode |-> m, axis |-> 0] : s \in {<<R(2), Q(3,2), R(1)>>, <<Q(3,2), Q(3,2), Q(3,2)>>, <<Q(1,2), R(1), R(2)>>}, m \in {"ceil", "round", "floor"}}
+            \cup {[op |-> "mirror", s |-> <<>>, mode |-> "", axis |-> k] : k \in {0, 1, 2}}
+            \cup {[op |-> "zoom", s |-> <<z>>, mode |-> "", axis |-> 0] : z \in {Q(3,2), Q(1,2)}}
+Geom3Cases == {[kind |-> "geom3d", shape |-> sh, g |-> g] : sh \in Geom3Shapes, g \in Geom3Ops}
+\* rescale: template shape = round(s L), index-space factor (s L - 1)/(L - 1) (pixel centres are scaled); mirror: L - 1 - x;
+\* zoom z about shape/2: source = c + (x - c)/z
+Geom3Out(c) == LET sh == c.shape g == c.g d == Len(sh) IN
+   CASE g.op = "rescale" -> [case |-> c, ok |-> \A k \in 1..d : RLt(R(1), RMul(g.s[k], R(sh[k]))),
+                             shape |-> [k \in 1..d |-> RoundMode(RMul(g.s[k], R(sh[k])), g.mode)],
+                             a |-> [k \in 1..d |-> LET den == RSub(RMul(g.s[k], R(sh[k])), R(1)) IN IF den = R(0) THEN R(1) ELSE RMul(R(sh[k] - 1), RInv(den))],
+                             b |-> [k \in 1..d |-> R(0)]]
+     [] g.op = "mirror" -> [case |-> c, ok |-> TRUE, shape |-> sh, a |-> [k \in 1..d |-> IF k = g.axis + 1 THEN R(-1) ELSE R(1)],
+                            b |-> [k \in 1..d |-> IF k = g.axis + 1 THEN R(sh[k] - 1) ELSE R(0)]]
+     [] OTHER -> [case |-> c, ok |-> TRUE, shape |-> sh, a |-> [k \in 1..d |-> RInv(g.s[1])],
+                  b |-> [k \in 1..d |-> RMul(Norm(sh[k], 2), RSub(R(1), RInv(g.s[1])))]]
 \* mask "sparse": index x is masked-in iff the sum of its coordinates is not divisible by 3
-Cases == (IF "crop" \in Kinds THEN CropCases2 \cup CropCases3 ELSE {}) \cup (IF "patch" \in Kinds THEN PatchCases ELSE {}) \cup (IF "imgvec" \in Kinds THEN VecCases ELSE {})
+Cases == (IF "geom3d" \in Kinds THEN Geom3Cases ELSE {}) \cup (IF "crop" \in Kinds THEN CropCases2 \cup CropCases3 ELSE {}) \cup (IF "patch" \in Kinds THEN PatchCases ELSE {}) \cup (IF "imgvec" \in Kinds THEN VecCases ELSE {})
 Out(c) == CASE c.kind = "crop" -> [case |-> c, res |-> CropSpec(c.shape, c.mn, c.mx, c.constrain)]
             [] c.kind = "patch" -> PatchOut(c)
+            [] c.kind = "geom3d" -> Geom3Out(c)
             [] OTHER -> [case |-> c]
 Init == case \in Cases /\ done = FALSE
 Next == done = FALSE /\ done' = TRUE /\ case' = case /\ CSVWrite("%1$s", <<ToJson(Out(case))>>, IOEnv.OUT_FILE)
@@ -84,4 +102,11 @@ Contiguous == case.kind = "patch" =>
    LET o == PatchOut(case) IN
    \A i \in 1..Len(o.centres) : \A j \in 1..Len(case.offsets) : \A k \in 1..2 :
       \A r \in 1..(case.pshape[k] - 1) : (o.slice[i][j][k][r] >= 0 /\ o.slice[i][j][k][r+1] >= 0) => o.slice[i][j][k][r+1] = o.slice[i][j][k][r] + 1
+\* the per-axis map sends the template's corner indices onto the source's corner indices (rescale), is an involution (mirror)
+Geom3Sound == case.kind = "geom3d" =>
+   LET o == Geom3Out(case) d == Len(case.shape) IN
+   o.ok => \A k \in 1..d :
+      CASE case.g.op = "rescale" -> RAdd(RMul(o.a[k], RSub(RMul(case.g.s[k], R(case.shape[k])), R(1))), o.b[k]) = R(case.shape[k] - 1)
+        [] case.g.op = "mirror" -> RAdd(RMul(o.a[k], RAdd(RMul(o.a[k], R(1)), o.b[k])), o.b[k]) = R(1)
+        [] OTHER -> RAdd(RMul(o.a[k], Norm(case.shape[k], 2)), o.b[k]) = Norm(case.shape[k], 2)              \* the centre is fixed
 =======================================================================
